@@ -9,6 +9,8 @@ predecessor and raises DiffXParseError there; a fully legal sequence is read
 to the end.
 """
 
+import io
+
 from dsim import gen, pipe
 from dsim import refmodel as R
 from dsim.actors import (read_all, read_twice, exc_summary,
@@ -163,6 +165,7 @@ def generate(rng, tier, cls):
             'style': style if any(style) else [],
             'noise': pipe.gen_noise(rng),
             'crlf': rng.chance(0.15),
+            'dom_hook': rng.chance(0.15),
             'stream': gen.gen_stream(rng)[0],
             'stream_extras': sx,
             'block_size': rng.choice([None, None, 1, 9, 97])}
@@ -202,7 +205,8 @@ def sweep_scenarios(task):
     def rec(prefix, depth):
         for c in CANDIDATES:
             yield {'actors': [], 'schedule': [], 'faults': [],
-                   'ids': prefix + [c], 'block_size': None}
+                   'ids': prefix + [c], 'block_size': None,
+                   'dom_hook': True}
 
         if depth > 0:
             for c in R.NEXT.get(prefix[-1] if prefix else None, ()):
@@ -311,6 +315,24 @@ def execute(scn, L):
                 ids[len(recs)] if len(recs) < len(ids) else '?'), info)
         elif got_ids != ids:
             out.violate('C10.ids', 'legal-sequence', info)
+        elif scn.get('dom_hook'):
+            # the same legal sequence through the object-model loader with
+            # the documented reader_cls hook set to a DiffXReader subclass
+            # that overrides nothing: the order cannot be refused there
+            # either (other refusals, e.g. of an option the object model
+            # does not know, are not about the order)
+            dom = type('DiffXDOMReader', (L.DiffXDOMReader,), {
+                'reader_cls': type('DiffXReader', (L.DiffXReader,), {})})
+            out.probe('legal_sequence_through_dom_hook')
+
+            try:
+                dom(L.DiffX).parse(io.BytesIO(data))
+            except L.DiffXParseError as e:
+                info['exc'] = exc_summary(e, L)
+                out.violate('C10.legal-rejected', 'dom-hook:%s' % ids[-1],
+                            info)
+            except Exception:
+                pass
 
         out.nontrivial = len(ids) >= 5
         return out
